@@ -674,6 +674,16 @@ def run_c08(ctx):
         s2, m2, pv2, e2 = run_stream_shards("spec", "spec", ctx.seed, 8, 1500 if ctx.tier == "quick" else 30000, extra="1")
         rej = [pv_case(l) for l in pv2 if parse_kv(l).get("prop") == "C08"]
         summ["generated_valid_patterns"] = s2.get("cases", 0) + len(rej)
+        # the early error "a negated class may not contain strings": for every generated v-mode class expression E the
+        # verdict of regress on [^E] against MayContainStrings of E (reference, Spec.vmcs) and against the flag of the
+        # class set model (theorem c08_may_contain_strings_flag says the two agree)
+        s3, m3, pv3, e3 = run_stream_shards("spec", "spec", ctx.seed + 11, 8, 600 if ctx.tier == "quick" else 12000, extra="1 class")
+        for e in e3: broken.append("pipeline(class): " + e)
+        neg = [pv_case(l) for l in pv3 if parse_kv(l).get("prop") == "C08"]
+        mm3 = [l for l in m3 if "earlyerror" in l]
+        if mm3: broken.append("correspondence (class set model, early error): %d disagreements, first: %s" % (len(mm3), mm3[0][:200]))
+        summ["negated_class_decisions"] = s3.get("negated_class_decisions", 0)
+        rej += neg
     ctx.note("syntax vs V8: %s disagreements=%d; generated valid patterns rejected=%d" % (summ, len(dis), len(rej)))
     # classify disagreements by a normalised shape so that one replay per class is written
     def shape(t):
@@ -698,7 +708,7 @@ def run_c08(ctx):
         report_violation(ctx, path); reported += 1
     for c in rej[:2]:
         if reported >= 4: break
-        path = write_replay(ctx, "input", dict(kind="failing-input", stream="spec", pattern=c["pat"], flags=c["flags"], detail="valid pattern (printed from a generated syntax tree) rejected"))
+        path = write_replay(ctx, "input", dict(kind="failing-input", stream="spec", pattern=c["pat"], flags=c["flags"], detail=c.get("detail") or "valid pattern (printed from a generated syntax tree) rejected"))
         report_violation(ctx, path); reported += 1
     if broken and reported == 0:
         path = write_replay(ctx, "tie", dict(kind="broken-obligation", broken=broken, note="no accept/reject disagreement found"))
@@ -706,8 +716,9 @@ def run_c08(ctx):
     cov = dict(evaluations=summ.get("compared", 0) + summ.get("generated_valid_patterns", 0), distinct_nontrivial=summ.get("compared", 0), programs=max(summ.get("compared", 0), 1), disagreements_checked=len(dis),
                rule="token-level random strings (80 syntax tokens, raw surrogates injected) under 8 flag sets: Regex::from_unicode accept/reject vs V8 (node 20, ICU 78); strings using constructs this V8 lacks (inline modifiers, duplicate names) are skipped and covered instead by generated syntax trees that must all be accepted",
                samples=[dict(pattern=decode_pat(t[2]), flags=t[3], verdicts=t[4:6]) for t in list(classes.values())[:4]] or [dict(note="no disagreement")],
-               obligations=1, discharged=0, checker_cmd="rvharness advfuzz | node ref/v8_syntax.js; rvharness spec | driver spec", trusted_base=TRUSTED_BASE + ["V8 (node 20.20) as the accept/reject oracle"])
-    write_evidence(ctx, "exploration", cov, ["no Gallina model of the parser yet: this check is differential testing against V8, not a proof"])
+               obligations=max(len(fr["theorems"]), 1), discharged=fr["discharged"] if fr["theorems"] else 0, theorems=fr["theorems"],
+               checker_cmd="rvharness advfuzz | node ref/v8_syntax.js; rvharness spec | driver spec; rvharness spec .. class | driver spec; make theories/Properties/C08.vo", trusted_base=TRUSTED_BASE + ["V8 (node 20.20) as the accept/reject oracle"])
+    write_evidence(ctx, "exploration", cov, ["the parser is not modelled as a whole: apart from one early error (negated class that may contain strings) this check is differential testing against V8, not a proof"])
     return 1 if ctx.violations else 0
 PROPS["C08"] = (run_c08, lambda ctx, path: run_c08(ctx))
 for _p in API_PROPS: PROPS[_p] = (run_api, replay_api)
